@@ -825,6 +825,11 @@ func (vfs *MemFS) Rename(oldpath, newpath string) error {
 		}
 
 		if !vfs.isNotExist(nErr) {
+			// A directory can't replace a file or a symbolic link.
+			if _, ok := nChild.(*dirNode); !ok {
+				nErr = vfs.err.NotADirectory
+			}
+
 			if vfs.OSType() == avfs.OsWindows {
 				nErr = avfs.ErrWinAccessDenied
 			}
